@@ -234,8 +234,21 @@ pub fn generate_convert(name: &str, count: usize, rng: &mut Rng, out: &mut dyn W
                     _ => {
                         let mk = |fam6: bool, off: usize, port: u16, rng: &mut Rng| -> Value {
                             if fam6 {
-                                let (flow, scope) = match rng.below(4) { 0 => (0, 0), 1 => (0, rng.next() as u32 & 0x7fffffff), 2 => (rng.next() as u32 & 0xfffff, 0), _ => (rng.next() as u32 & 0x7fffffff, rng.next() as u32 & 0x7fffffff) };
-                                json!({"fam": 6, "ip": flat(&b[off..off + 16]), "port": port, "flow": flow, "scope": scope})
+                                let (mut flow, mut scope) = match rng.below(4) { 0 => (0, 0), 1 => (0, rng.next() as u32 & 0x7fffffff), 2 => (rng.next() as u32 & 0xfffff, 0), _ => (rng.next() as u32 & 0x7fffffff, rng.next() as u32 & 0x7fffffff) };
+                                let mut ip = b[off..off + 16].to_vec();
+                                // scoped / well-known classes, and RELATIONS between the fields of one
+                                // socket address: a group equal to the scope id (KAME-style embedding),
+                                // to the port, to the flow label
+                                match rng.below(8) {
+                                    0 => { ip[0] = 0xfe; ip[1] = 0x80; scope = 1 + rng.below(9) as u32; ip[2] = 0; ip[3] = scope as u8; }
+                                    1 => { ip[0] = 0xfe; ip[1] = 0x80; ip[2] = 0; ip[3] = 0; scope = 1 + rng.below(9) as u32; }
+                                    2 => { ip[0] = 0xff; ip[1] = 0x02; scope = u16::from_be_bytes([ip[2], ip[3]]) as u32; }
+                                    3 => { let k = 2 * rng.below(8) as usize; scope = u16::from_be_bytes([ip[k], ip[k + 1]]) as u32; }
+                                    4 => { let k = 2 * rng.below(8) as usize; ip[k] = (port >> 8) as u8; ip[k + 1] = port as u8; }
+                                    5 => { flow = u16::from_be_bytes([ip[14], ip[15]]) as u32; }
+                                    _ => {}
+                                }
+                                json!({"fam": 6, "ip": flat(&ip), "port": port, "flow": flow, "scope": scope})
                             } else {
                                 json!({"fam": 4, "ip": flat(&b[off..off + 4]), "port": port, "flow": 0, "scope": 0})
                             }
